@@ -182,8 +182,21 @@ class Session(object):
                 self.do("delete %s %s" % (w, brack([hx(x) for x in self.we_map().get(int(w), [p])])))
         return a
 
+    def rule_table(self):
+        """the RAM rule table of the index under test, keys as bytes (whatever the implementation stores)"""
+        out = {}
+        try:
+            for a, rx in dict(getattr(self.impl.t, "webentity_creation_rules", {}) or {}).items():
+                if isinstance(a, str):
+                    a = a.encode(getattr(self.impl, "enc", None) or "utf-8", "replace")
+                if isinstance(a, (bytes, bytearray)):
+                    out[bytes(a)] = rx
+        except Exception:
+            pass
+        return out
+
     def current_rules_arg(self):
-        rs = getattr(self.impl.t, "webentity_creation_rules", {})
+        rs = self.rule_table()
         inv = {}
         from .impl import RULES
         for name, pat in RULES.items():
@@ -388,6 +401,8 @@ class Session(object):
         self.q("retrieveprefix " + hx(under)); self.q("retrievewe " + hx(under))
         res = self.do("rmprefix %s %s" % (hx(p), arg))
         self.q("retrievewe " + hx(under)); self.q("retrieveprefix " + hx(under))
+        if self.p.get("r", {}).get("hierarchy_all", 0) > 0:
+            self.r_hierarchy_all()           # the pruning marks must survive the removal of a prefix
         for q in qs:
             self.q(q)
         return res
@@ -413,7 +428,7 @@ class Session(object):
     def w_addrule(self):
         st = stems_of(self.any_lru())
         a = b"".join(st[: self.r.randint(1, len(st))]); self.note(a)
-        rs = list(getattr(self.impl.t, "webentity_creation_rules", {}).keys())
+        rs = list(self.rule_table().keys())
         below = [l for l in self.known for q in rs if l.startswith(q) and len(stems_of(l)) > len(stems_of(q))]
         if below and self.r.random() < 0.4:
             # an anchor nested below an anchored rule, with a rule that proposes a longer prefix than the one above
@@ -449,7 +464,7 @@ class Session(object):
         return res
 
     def w_rmrule(self):
-        rs = list(getattr(self.impl.t, "webentity_creation_rules", {}).keys())
+        rs = list(self.rule_table().keys())
         a = self.r.choice(rs) if rs and self.r.random() < 0.8 else self.any_lru()
         return self.do("rmrule " + hx(a))
 
@@ -464,6 +479,17 @@ class Session(object):
                 forgotten = unx(items.pop(self.r.randrange(len(items))).split("=")[0])
                 rules = "[" + ",".join(items) + "]"
         res = self.do("reopen %s %s" % (self.dflt, rules))
+        if forgotten is None and self.r.random() < 0.6:
+            # the rules re-supplied on reopening must work as before: a new page below each anchor (one of them spelled
+            # with a capital type letter, which the rules match case-insensitively)
+            anchors = [unx(x.split("=")[0]) for x in (rules[1:-1].split(",") if len(rules) > 2 else [])][:2]
+            for k, a in enumerate(anchors):
+                tail = self.r.choice([b"p:rr|p:ss|p:tt|", b"P:Z|p:ss|p:tt|p:uu|", b"p:rr|P:Z|p:tt|"]) if self.family == "g1" else stems_of(self.new_lru())[-1]
+                page = a + tail
+                self.note(page); self.pages.append(page)
+                self.q("potential " + hx(page))
+                self.do("addpage %s 0" % hx(page))
+                self.q("retrieveprefix " + hx(page))
         if forgotten is not None:
             # queries that walk through the flagged anchor whose rule is no longer in RAM
             under = [l for l in self.known if l.startswith(forgotten)][:3] + [forgotten + b"p:zz|"]
